@@ -15,14 +15,18 @@ EXTRA_MODULES = {}
 
 
 def get(pid):
-    path = os.path.join(LEAN, 'PMC', 'Properties', pid + '.lean')
-    if not os.path.exists(path):
-        return ([], [])
-    src = open(path).read()
-    # strip block comments
-    src = re.sub(r'/-.*?-/', '', src, flags=re.S)
-    names = re.findall(r'^theorem\s+([A-Za-z_][A-Za-z0-9_\'.]*)', src, flags=re.M)
-    ths = ['PMC.%s.%s' % (pid, n) for n in names]
+    """(modules, theorem names) of every file PMC/Properties/<pid>*.lean (e.g. C01.lean and C01Memo.lean)"""
+    d = os.path.join(LEAN, 'PMC', 'Properties')
+    files = sorted(f for f in os.listdir(d) if f.endswith('.lean') and re.fullmatch(pid + r'[A-Za-z]*\.lean', f))
+    mods, ths = [], []
+    for fn in files:
+        src = open(os.path.join(d, fn)).read()
+        src = re.sub(r'/-.*?-/', '', src, flags=re.S)
+        ns = re.search(r'^namespace\s+(\S+)', src, flags=re.M)
+        ns = ns.group(1) if ns else 'PMC.' + pid
+        names = re.findall(r'^theorem\s+([A-Za-z_][A-Za-z0-9_\'.]*)', src, flags=re.M)
+        ths += ['%s.%s' % (ns, n) for n in names]
+        mods.append('PMC.Properties.' + fn[:-5])
     if len(ths) < MIN.get(pid, 0):
         raise RuntimeError('%s: expected at least %d property theorems, found %d' % (pid, MIN.get(pid, 0), len(ths)))
-    return (['PMC.Properties.' + pid] + EXTRA_MODULES.get(pid, []), ths)
+    return (mods + EXTRA_MODULES.get(pid, []), ths)
